@@ -2,6 +2,7 @@ package checks
 
 import (
 	"bytes"
+	"strings"
 	"crypto/rand"
 	"fmt"
 	"io"
@@ -48,6 +49,12 @@ func secretHistory(c c08Case, x *xplore.X) (obs, bad string) {
 	old := rand.Reader
 	rand.Reader = rr
 	defer func() { rand.Reader = old }()
+	type kept struct {
+		s, clone string
+		want     []byte
+		call     int
+	}
+	var keep []kept
 	for i, a := range c.Algos {
 		before := rr.off
 		var s string
@@ -82,6 +89,16 @@ func secretHistory(c c08Case, x *xplore.X) (obs, bad string) {
 		dec, derr := otp.DecodeSecret(s)
 		if derr != nil || !bytes.Equal(dec, want) {
 			return obs, fmt.Sprintf("call %d: DecodeSecret does not map the secret back to the stream bytes", i)
+		}
+		// every secret handed out earlier must still be the secret it was (no shared memory with later calls)
+		keep = append(keep, kept{s, strings.Clone(s), want, i})
+		for _, k := range keep {
+			if k.s != k.clone {
+				return obs, fmt.Sprintf("the secret returned by call %d changed after call %d: was %s, now %s", k.call, i, k.clone, k.s)
+			}
+			if d, e := otp.DecodeSecret(k.s); e != nil || !bytes.Equal(d, k.want) {
+				return obs, fmt.Sprintf("the secret returned by call %d no longer decodes to its stream bytes after call %d", k.call, i)
+			}
 		}
 	}
 	return obs, ""
